@@ -519,15 +519,16 @@ def lean_decode_checks(ctx, P, gp, dvs, samples, dis, cache):
         # activeness: the eager manager is modelled as it is; the others follow the reference semantics
         dm = r['impl'] if all(k in ('eager', 'absent') for k in kinds) else r['ref']
         d = dm['design']
-        mats_impl = [list(mm) for mm in c['mats'] if mm is not None]
+        # the connection choices of the model are in processor order; c['mats'] is in spec order
+        by_cc = {cc_[0]: (list(mm) if mm is not None else None) for cc_, mm in zip(P.conn, c['mats'])}
+        mats_impl = [by_cc[cc_] for cc_ in LP['conn_nodes']]
         mats_model = [[v for row in M for v in row] for M in d['mats']]
-        # the connection choices of the model are in processor order; c['mats'] in spec order - compare as multisets
         dvals_model = []
         for dd, v, vv in zip(LP['dv_meta'], d['dvals'], dm['vals']):
             dvals_model.append(None if vv is None else (vv if dd['kind'] == 'discrete' else from_grid(dd, vv)))
         by_node = {dd['node']: v for dd, v in zip(P.dv_nodes(), c['dvals'])}
         dvals_impl = [by_node[dd['node']] for dd in LP['dv_meta']]
-        if (d['row'] != list(c['row']) or sorted(mats_impl) != sorted(mats_model) or dvals_model != dvals_impl
+        if (d['row'] != list(c['row']) or mats_impl != mats_model or dvals_model != dvals_impl
                 or r['nodes'] != list(c['nodes']) or not r['valid']):
             dis('lean-decode-design', case, {'model': d, 'model_vals': dvals_model, 'impl_row': list(c['row']),
                                              'impl_mats': mats_impl, 'impl_dvals': dvals_impl, 'valid': r['valid'],
